@@ -90,4 +90,12 @@ PROPS = {
         "rule": "cases: corpus, rendered documents with multi-byte characters, BOM, CRLF, comments/whitespace around every token, nested containers, dotted keys, headers and arrays of tables; mutation survivors. distinct = text hash; non-trivial = documents on which at least 3 spans were compared",
         "assumptions": COMMON,
     },
+    "C15": {
+        "claimed": True,
+        "technique": "invariant monitor over every error value produced by hostile inputs (message, span, rendering) with an independent line/column computation; planted type mismatches with known key paths and spans",
+        "level_text": "every rejection produced by six parse routes on mutated, truncated, swept and near-miss inputs (with multi-byte characters placed before and at the error position, and errors at end of input with and without a final newline) must carry a non-empty message, a span inside the text on character boundaries, render without panicking, and print the line and column that an independent character-counting computation derives from the span start",
+        "level_note": "trusted: the independent line/column rule of DESIGN C15 (characters, 1-based; at end of input the last character advanced by one column)",
+        "rule": "cases: corpus (invalid half), slot x byte-class sweep, truncations of corpus and rendered documents at arbitrary bytes, 1-3 mutations, near-miss lexemes, synthetic multi-byte error documents. Each rejected input is one evaluation judging up to 6 error values. distinct = text hash; non-trivial = rejected inputs",
+        "assumptions": COMMON,
+    },
 }
